@@ -552,6 +552,8 @@ def stage_handover(ctx, stats):
                     msg = 'logfile_read over expect() then interact() holds %r, the child wrote %r (cut at byte %d)' % (logged, text + '|done', cut)
             except pexpect.ExceptionPexpect as e:
                 msg = 'hand-over session failed: %s' % type(e).__name__
+            except Exception as e:      # noqa  (e.g. a decoding error out of expect(): a cut character reported as an error)
+                msg = 'expect() before the hand-over raised %s: %s' % (type(e).__name__, str(e)[:100])
             finally:
                 p.close(force=True)
                 os.close(m); os.close(sfd)
@@ -559,6 +561,70 @@ def stage_handover(ctx, stats):
             if msg:
                 common.report(ctx, 'interact/handover/cut%d' % cut, msg, dict(cut=cut, use_poll=use_poll, text=text))
     stats['handover_sessions'] = n
+
+
+def stage_aborted_call(ctx, stats):
+    """C07: a read ends inside a character; an expect() that is waiting for more is aborted by an exception the program survives (raised by a
+    signal handler); the rest of the character arrives afterwards: the text is still the decoding of the whole stream"""
+    import signal
+    from pexpect import fdpexpect
+
+    class Abort(Exception):
+        pass
+
+    def on_alarm(sig, frm):
+        raise Abort()
+    old = signal.signal(signal.SIGALRM, on_alarm)
+    n = 0
+    try:
+        for enc, errors, head, tail, want in (('utf-8', 'strict', b'caf\xc3', b'\xa9!', 'caf\u00e9!'), ('utf-8', 'replace', b'x\xe2\x82', b'\xac!', 'x\u20ac!'),
+                                              ('utf-16', 'strict', b'\xff\xfeh\x00\xe9', b'\x00!\x00', 'h\u00e9!'), ('shift_jis', 'strict', b'a\x83', b'\x5c!', 'a\u30bd!')):
+            for kind in ('fd',):
+                r, w = os.pipe()
+                p = fdpexpect.fdspawn(r, encoding=enc, codec_errors=errors, timeout=5)
+                wr = lambda b: os.write(w, b)
+                fin = lambda: (os.close(w), p.close())
+                got = ''
+                msg = None
+                try:
+                    wr(head)
+                    for _ in range(50):
+                        try:
+                            got += p.read_nonblocking(100, 0.05)
+                        except pexpect.TIMEOUT:
+                            break
+                    signal.setitimer(signal.ITIMER_REAL, 0.05)
+                    try:
+                        p.expect_exact('never', timeout=3)
+                        msg = 'the aborted call returned'
+                    except Abort:
+                        pass
+                    except pexpect.TIMEOUT:
+                        msg = 'the signal handler did not abort the call'
+                    finally:
+                        signal.setitimer(signal.ITIMER_REAL, 0)
+                    got += p.before if isinstance(p.before, str) else ''
+                    p.buffer = ''
+                    wr(tail)
+                    p.expect_exact('!', timeout=3)
+                    got += p.before + p.after
+                except Exception as e:      # noqa
+                    msg = msg or 'raised %s: %s' % (type(e).__name__, str(e)[:100])
+                finally:
+                    try:
+                        fin()
+                    except Exception:
+                        pass
+                n += 1
+                if msg is None and got != want:
+                    msg = 'delivered %r, the stream decodes to %r' % (got, want)
+                if msg:
+                    common.report(ctx, 'c07/aborted-call/%s' % enc, '%s (%s/%s): a character cut by a read, an expect() aborted by an exception from a signal handler, then the rest of the '
+                                  'character: %s' % (kind, enc, errors, msg), dict(encoding=enc, errors=errors, head=head.hex(), tail=tail.hex()))
+                    break
+    finally:
+        signal.signal(signal.SIGALRM, old)
+    stats['aborted_call_sessions'] = n
 
 
 def stage_big_sends(ctx, stats):
@@ -761,6 +827,7 @@ def run(ctx):
     if prop == 'C07':
         stage_async(ctx, stats)
         stage_handover(ctx, stats)
+        stage_aborted_call(ctx, stats)
     if prop == 'C11':
         stage_interact_logging(ctx, stats)
         stage_handover(ctx, stats)
